@@ -157,6 +157,7 @@ def run_check(prop, tier, seed):
             new.append(v)
     # A violation is only believed if it reproduces from its replay case (twice, identically).
     confirmed = []
+    unreproduced = []
     seen_keys = {}
     seen_msgs = set()
     for v in new:
@@ -171,9 +172,18 @@ def run_check(prop, tier, seed):
             r1 = mod.replay(ctx, v.case)
             r2 = mod.replay(ctx, v.case)
             if not r1 or not r2 or r1 != r2:
-                raise HarnessError("violation %s of %s did not reproduce deterministically from its replay case "
-                                   "(%r vs %r): %s" % (v.key, prop, r1, r2, v.message))
+                unreproduced.append((v, r1, r2))
+                continue
         confirmed.append(v)
+    if unreproduced and not confirmed:
+        v, r1, r2 = unreproduced[0]
+        raise HarnessError("violation %s of %s did not reproduce deterministically from its replay case "
+                           "(%r vs %r): %s" % (v.key, prop, r1, r2, v.message))
+    if unreproduced:
+        # observed in the sweep but not from the isolated case (e.g. state of the code under test carried over from an
+        # earlier case of the same worker): never reported as a violation; the reproducible ones below are
+        res.notes.append("%d further observations did not reproduce from their isolated replay case and are not "
+                         "reported (first: %s)" % (len(unreproduced), unreproduced[0][0].message[:200]))
     for key, (hit, n) in sorted(matched.items()):
         print("KNOWN-FINDING: property=%s %s (%d matching cases this run; key=%s)"
               % (prop, hit.get("what", ""), n, key))
